@@ -1,8 +1,9 @@
 From MV Require Import Lib.ExtractBase C20.Model.
 From Coq Require Import ExtrOcamlBasic.
 Extraction Language OCaml.
-Extraction "c20_model" force_types model_npo2 swap16 swap32 swap64
-  strtol_model strtoul_model toi tou tol toul toll toull tofloat
+Extraction "c20_model" force_types model_npo2 swap16 swap32 swap64 operand as_int64
+  strtol_model strtoul_model toi tou tol toul toll toull tofloat parse_c
   startswith endswith lstrip_idx rstrip_idx str_find str_count
+  startswith_c endswith_c lstrip_idx_c rstrip_idx_c str_find_c str_count_c
   hex_to_byte hex_to_bytes hex_from_bytes
-  mkbuf cstr has_nul isabs basename dirname join normpath abspath.
+  mkbuf cstr has_nul isabs basename dirname join normpath abspath abspath_with.
